@@ -44,15 +44,20 @@ def run(ctx, replay=None):
     # right-hand sides that return arrays the caller still owns (the state vector itself, a stored array)
     for it in ("euler", "rk4"):
         al = K.alias_intact(it)
-        ctx.replayed += 4
+        ctx.replayed += 9
         ctx.case(["alias", it], sample={"alias": it, "observed": al} if len(ctx.samples) < 4 else None)
         for k, v in al.items():
             if not v:
                 ctx.violation("rk:%s:alias:%s" % (it, k), "%s iterator with a right-hand side that returns %s: %s" %
-                              (it, "its argument" if k in ("state", "step_alias") else ("one work array it refills on every call" if k.startswith("step_workbuf") else "a stored array"),
+                              (it, "its argument" if k in ("state", "step_alias", "solver_state", "solver_step_alias") else ("one work array it refills on every call" if k.startswith("step_workbuf") else "a stored array"),
                                {"state": "the state vector it was given was modified", "stored": "the array owned by the right-hand side was modified",
                                 "step_alias": "the step is not the documented one", "step_stored": "the step is not the documented one",
-                                "step_workbuf": "the step is not the documented one", "step_workbuf_t": "the step is not the documented one (x' = t^3)"}[k]), {"iterator": it, "observed": al})
+                                "step_workbuf": "the step is not the documented one", "step_workbuf_t": "the step is not the documented one (x' = t^3)",
+                                "solver_state": "through DESolver's wrappers (identity flatten): the state vector it was given was modified",
+                                "solver_step_alias": "through DESolver's wrappers (identity flatten): the step is not the documented one",
+                                "solver_stored": "through DESolver's wrappers (identity flatten): the array owned by the right-hand side was modified",
+                                "solver_step_stored": "through DESolver's wrappers (identity flatten): two steps with one stored rate array are not the documented ones",
+                                "solver_step_memo": "through DESolver's wrappers (identity flatten): a memoised time-dependent rate gives another step the second time"}[k]), {"iterator": it, "observed": al})
     if not cases:
         return
     out, res = eval_cases("RungeKutta", cases, tag="rk")
